@@ -271,6 +271,26 @@ def r7d(prog, rep):
     # the record cell is fetched with the index that was stored for the header
     ins = [c for c in p.calls if c.short == 'insert' and re.search(r'HashMap<usize, ', p.ty.get(c.arg_local(0), ''))]
     gets = [c for c in p.calls if c.short in ('get', 'index') and re.search(r'HashMap<usize, ', p.ty.get(c.arg_local(0), ''))]
+    if ins and not gets:
+        # the look-up sits in a closure of an adaptor chain over the record's cells (`record.iter().enumerate().filter_map(|(i, v)| map.get(&i)..)`):
+        # its index is the closure's item, which comes out of enumerate() over the cells untouched
+        for g in prog.closures_of(getattr(p, 'origin', p)):
+            for c in g.calls:
+                if c.short in ('get', 'index') and re.search(r'HashMap<usize, ', g.ty.get(c.arg_local(0), '') or '') and len(c.args) > 1:
+                    o1 = mir.provenance(g, c.args[1])
+                    item_only = bool(o1.params - {1}) and not o1.binops and not o1.calls and not o1.upvars
+                    via_enum = False
+                    for (par, hc, ai) in mir.handed_to(prog, g):
+                        ro = mir.provenance(par, hc.args[0], pass_through=c18.ITER_PASS | {'filter', 'filter_map', 'map', 'inspect'}, stop_calls=r'Iterator::enumerate$')
+                        en = [x for x in ro.calls if x.decl.endswith('Iterator::enumerate')]
+                        if en and re.search(r'csv::StringRecordIter', par.ty.get(en[0].arg_local(0), '') or '') and not ro.binops:
+                            via_enum = True
+                    oi = mir.provenance(p, ins[0].args[1], pass_through=c18.ITER_PASS, stop_calls=r'Iterator::enumerate$')
+                    if item_only and via_enum and oi.has_call(r'Iterator::enumerate$') and not oi.binops:
+                        rep.ok('R7d', 'portfolio::io::tx_csv::parse_tx_csv|same-index-stored-and-fetched', fn=p.name, where=c.where(),
+                               detail='the column map is keyed by the enumerate index of the header row and queried, in the closure that walks a '
+                                      'record, with the enumerate index of the cell, both unmodified')
+                        return
     if ins and gets:
         # from the use back to the enumerate() that produced the index, and no further (what the row iterator itself derives from —
         # e.g. an error closure capturing `row_num = i + 2` — is not arithmetic on the column index)
@@ -299,7 +319,12 @@ def r7d_index_values(prog, rep, p, group):
     fns = list(group) + [h for g in group for h in prog.closures_of(g) if h not in group]
 
     def cell_enumerates(g):
-        return [c for c in g.calls if c.decl.endswith('Iterator::enumerate') and re.search(r'csv::StringRecordIter', g.ty.get(c.arg_local(0), '') or '')]
+        # (the cells may reach the enumerate through a helper's `impl Iterator<Item = &str>` parameter: then the receiver is traced back
+        # to StringRecord::iter)
+        return [c for c in g.calls if c.decl.endswith('Iterator::enumerate') and
+                (re.search(r'csv::StringRecordIter', g.ty.get(c.arg_local(0), '') or '') or
+                 (not re.search(r'::', (g.ty.get(c.arg_local(0), '') or '').split('<')[0]) and
+                  mir.provenance(g, c.args[0], follow_all_call_args=True).has_call(r'csv::StringRecord::iter$')))]
     enums = [(g, c) for g in fns for c in cell_enumerates(g)]
     hdr = [(g, c) for (g, c) in enums if mir.provenance(g, c.args[0], follow_all_call_args=True).has_call(r'::headers$')]
     rec = [(g, c) for (g, c) in enums if (g, c) not in hdr]
